@@ -1,6 +1,7 @@
 // Engine B (histsim): DynamicPGMIndex histories against std::map (C05, C06), LSM shape through hook H3 (C15),
 // lifetime steps (C19), invalid arguments as injected faults (C20). The C front end (C18) is in b_cfront.hpp.
 #pragma once
+#include <deque>
 #include "a_common.hpp"   // registry, environment, key helpers (shared with engine A)
 #include "a_static.hpp"   // churn_allocator
 #include "pgm/pgm_index_dynamic.hpp"
@@ -234,6 +235,10 @@ struct DynClass {
         unsigned w_ins = (unsigned) cfg.range(2, 10), w_erase = (unsigned) cfg.range(0, 6), w_query = (unsigned) cfg.range(1, 6);
         bool lifetime = g.prop == "C19";
         bool inject = g.prop == "C20" || cfg.chance(300);
+        Rng use = sim::stream(g.run_seed, "usage"); // usage-pattern dimensions (own stream: older plans keep their shape)
+        bool second = !lifetime && !large && use.chance(120);
+        if (second) p.set("second", 1 + use.below(6));
+        if (nb > 0 && !large) { static const char *bi[] = {"vector", "vector", "pairptr", "podptr", "deque"}; const char *k = bi[use.below(5)]; if (std::string(k) != "vector") p.set("bulk_iter", k); }
         bool derived = false;
         for (size_t i = 0; i < nops; ++i) {
             if (growth && work.chance(800)) { p.item('O', "I " + key_text(km.at(work.range(0, km.U))) + " " + std::to_string(next_value++)); continue; }
@@ -250,6 +255,9 @@ struct DynClass {
                 continue;
             }
             if (lifetime && derived && work.chance(100)) { p.item('O', work.coin() ? "Z destroy-source" : (work.coin() ? "Z churn" : "Z query-copy")); continue; }
+            if (second && use.chance(150)) { if (use.chance(700)) p.item('O', "M " + key_text(dk()) + " " + std::to_string(next_value++)); else p.item('O', "N " + key_text(dk())); continue; }
+            if (use.chance(25)) { p.item('O', "A " + key_text(dk()) + " " + key_text(dk())); continue; }
+            if (use.chance(25)) { p.item('O', "U " + key_text(dk()) + " " + std::to_string(1 + use.below(5)) + " " + std::to_string(use.below(8))); continue; }
             if (r < w_ins) p.item('O', "I " + key_text(dk()) + " " + std::to_string(next_value++));
             else if (r < w_ins + w_erase) p.item('O', "E " + key_text(dk()));
             else switch (work.below(7)) {
@@ -460,6 +468,22 @@ struct DynClass {
         return out;
     }
 
+    /// Bulk-load through different iterator kinds: vector iterators over std::pair (default), raw pointers to std::pair, raw
+    /// pointers to a plain struct {K first; V second;} (what the C interface passes), std::deque iterators.
+    struct PodPair { K first; V second; };
+    static Dyn *make_from(const std::vector<std::pair<K, V>> &bulk, const std::string &kind, unsigned base, unsigned bl, unsigned il, Stats &st) {
+        if (kind == "pairptr") { st.inc("reach.bulk_from_pair_pointers"); const std::pair<K, V> *a = bulk.data(); return new Dyn(a, a + bulk.size(), (uint8_t) base, (uint8_t) bl, (uint8_t) il); }
+        if (kind == "podptr") {
+            st.inc("reach.bulk_from_struct_pointers");
+            std::vector<PodPair> pod; pod.reserve(bulk.size());
+            for (auto &kv : bulk) pod.push_back(PodPair{kv.first, kv.second});
+            const PodPair *a = pod.data();
+            return new Dyn(a, a + pod.size(), (uint8_t) base, (uint8_t) bl, (uint8_t) il);
+        }
+        if (kind == "deque") { st.inc("reach.bulk_from_deque"); std::deque<std::pair<K, V>> dq(bulk.begin(), bulk.end()); return new Dyn(dq.begin(), dq.end(), (uint8_t) base, (uint8_t) bl, (uint8_t) il); }
+        return new Dyn(bulk.begin(), bulk.end(), (uint8_t) base, (uint8_t) bl, (uint8_t) il);
+    }
+
     // ---- execution ------------------------------------------------------------------------------------------------------
     static Outcome run(const CfgEntry &ce, const PlanText &p, const RunCtx &rc, Stats &st) {
         Outcome out;
@@ -487,7 +511,7 @@ struct DynClass {
         sim::begin_run(env);
         std::unique_ptr<Dyn> X;
         try {
-            X.reset(new Dyn(bulk.begin(), bulk.end(), (uint8_t) base, (uint8_t) bl, (uint8_t) il));
+            X.reset(make_from(bulk, p.get("bulk_iter"), base, bl, il, st));
         } catch (const std::exception &e) {
             sim::end_run();
             out.fail("ctor-exception", std::string("bulk-load of a sorted range threw: ") + e.what());
@@ -498,6 +522,16 @@ struct DynClass {
         Dyn *cur = X.get();
         std::unique_ptr<Dyn> Y; // derived object (C19)
         Model y_model;
+        // a second container of the same type on the same thread (header `second`): receives updates right after the first
+        // one was queried for the same key; judged like the first (state kept per thread or per type, not per object, shows up)
+        std::unique_ptr<Dyn> B;
+        Model b_model;
+        if (p.get_u("second", 0)) {
+            std::vector<std::pair<K, V>> bb(bulk.begin(), bulk.begin() + std::min<size_t>(bulk.size(), (size_t) p.get_u("second", 0) - 1));
+            for (auto &kv : bb) b_model.emplace(kv.first, kv.second);
+            B.reset(new Dyn(bb.begin(), bb.end(), (uint8_t) base, (uint8_t) bl, (uint8_t) il));
+            st.inc("second_container_runs");
+        }
         bool x_alive = true, x_moved = false;
         size_t updates = 0, reinserts = 0, merges_seen = 0;
         std::set<K> erased_once;
@@ -569,7 +603,44 @@ struct DynClass {
                 K k = (K) o.a[0];
                 if (do_point) check_lower_bound_first(*cur, model, k, out, tr);
                 if (out.ok && do_trav) check_traversal(*cur, model, cur->lower_bound(k), model.lower_bound(k), o.a.size() > 1 ? (size_t) o.a[1] : 3, "lower_bound(" + key_text(k) + ") + increments", out, tr);
+            } else if (o.kind == "U" && o.a.size() >= 3) {
+                // copies of an iterator that has already been advanced: both walkers must see the same, correct suffix
+                if (!src_usable || !do_trav) continue;
+                K k = (K) o.a[0];
+                auto it = cur->lower_bound(k);
+                auto mi = model.lower_bound(k);
+                auto end = cur->end();
+                for (size_t a = 0; a < (size_t) o.a[1] && it != end && mi != model.end(); ++a) { ++it; ++mi; }
+                if ((it == end) != (mi == model.end())) { out.fail("traversal-length", "iterator advanced " + std::to_string((size_t) o.a[1]) + " times from lower_bound(" + key_text(k) + ") and the map disagree about the end"); continue; }
+                auto saved = it; // copy of an advanced iterator
+                check_traversal(*cur, model, it, mi, (size_t) o.a[2], "copy of an advanced iterator (first walker)", out, tr); // passes another copy
+                if (out.ok) check_traversal(*cur, model, saved, mi, (size_t) o.a[2] + 2, "copy of an advanced iterator (second walker, after the first one moved on)", out, tr);
+                if (out.ok) check_traversal(*cur, model, it, mi, 1, "the original iterator after its copies were advanced", out, tr);
+                st.inc("steps.iterator_copies");
+            } else if (o.kind == "A" && o.a.size() >= 2) {
+                // the value argument refers to an element of the container itself
+                if (!src_usable) continue;
+                K src = (K) o.a[0], dst = (K) o.a[1];
+                if (is_reserved(dst)) continue;
+                auto f = cur->find(src);
+                if (f == cur->end()) continue;
+                cur->insert_or_assign(dst, f->second);
+                model[dst] = model.at(src);
+                after_update();
+                st.inc("steps.aliased_value");
+                if (out.ok && (do_point || do_trav)) { check_find(*cur, model, dst, out, tr); if (out.ok) check_find(*cur, model, src, out, tr); }
+            } else if ((o.kind == "M" || o.kind == "N") && !o.a.empty()) {
+                if (!B || !src_usable) continue;
+                K k = (K) o.a[0];
+                if (is_reserved(k)) continue;
+                (void) (cur->find(k) == cur->end()); // the first container is asked about the key ...
+                if (o.kind == "M" && o.a.size() >= 2) { V v = VM::make((uint64_t) o.a[1]); B->insert_or_assign(k, v); b_model[k] = v; } // ... and the second one updated with it
+                else { B->erase(k); b_model.erase(k); }
+                st.inc("steps.second_container_update");
+                if (do_shape && out.ok) { Outcome o2; check_shape(*B, cap, env, o2, st, tr); if (!o2.ok) out.fail(o2.clause, "second container: " + o2.detail); }
+                if (out.ok) { Outcome o2; check_find(*B, b_model, k, o2, tr); if (!o2.ok) out.fail(o2.clause, "second container: " + o2.detail); }
             } else if (o.kind == "T") {
+                if (src_usable && B && do_trav) { Outcome o2; check_traversal(*B, b_model, B->begin(), b_model.begin(), SIZE_MAX, "second container: begin()..end()", o2, tr); if (!o2.ok) out.fail(o2.clause, o2.detail); }
                 if (src_usable && do_trav) check_traversal(*cur, model, cur->begin(), model.begin(), SIZE_MAX, "begin()..end()", out, tr);
             } else if (o.kind == "R" && o.a.size() >= 2) {
                 if (src_usable && do_trav) check_range(*cur, model, (K) o.a[0], (K) o.a[1], out, tr);
